@@ -5,9 +5,11 @@ CodedKern.rename_and_write, one action per file-system call, and is model-checke
 by TLC over ALL interleavings (both naming schemes, with and without a kernel
 left by an earlier run).
 
-Binding A (spec -> code): TLC's counter-example and the schedules of TLC's
-reachable graph (every schedule of <= 2 runs, a seeded sample + edge cover of the
-3-run schedules) are replayed with REAL concurrent runs (pv.c29_shim: threads
+Binding A (spec -> code): schedules of TLC's reachable graph (every schedule of
+a configuration with few schedules, otherwise a seeded uniform sample plus a
+cover of every transition of the 2-run graphs and of as many transitions of the
+3-run graphs as the budget allows; a counter-example, should TLC find one) are
+replayed with REAL concurrent runs (pv.c29_shim: threads
 running the real psy.gen, every file-system call of psyGen gated by a
 scheduler; one step in flight); after each step the projected directory is
 compared with the model state.
@@ -80,15 +82,15 @@ def _tlc_value(text):
     '''TLC's printed value (tuples, sets, strings, integers) -> Python.'''
     body = text.replace('\\"', '"')
     body = (body.replace("<<", "[").replace(">>", "]")
-            .replace("{", "[").replace("}", "]"))
+            .replace("{", "[").replace("}", "]")
+            .replace("TRUE", "true").replace("FALSE", "false"))
     return json.loads(body)
 
 
 class Graph:
     '''Reachable graph of KernelOutput as dumped by TLC (DumpTransition).'''
 
-    def __init__(self, res, split):
-        self.split = split
+    def __init__(self, res):
         self.succ = {}
         targets = set()
         self.nedges = printed = 0
@@ -109,11 +111,13 @@ class Graph:
                 self.nedges += 1
             self.succ.setdefault(kdst, [])
             targets.add(kdst)
-        ninit = sum(1 for k in self.succ if k not in targets)
-        if res.generated - printed != ninit:
-            raise core.MachineryError(
-                f"transition dump incomplete: {printed} edges printed, "
-                f"{res.generated} states generated, {ninit} initial states")
+        # every printed path must end in a state in which all runs have finished
+        for key, out in self.succ.items():
+            if not out and any(p not in ("done", "off") for p in json.loads(key)[4]):
+                raise core.MachineryError("transition dump incomplete: a printed "
+                                          "path ends in " + key[:200])
+        if not printed:
+            raise core.MachineryError("TLC printed no transition")
         for lst in self.succ.values():
             lst.sort(key=lambda e: (e[0][0], e[1]))
         self.inits = sorted(k for k in self.succ if k not in targets)
@@ -151,56 +155,63 @@ class Graph:
         return path
 
 
-def _case_of(graph, init, path, cid, origin):
-    scheme, pre, ver, _, pcs = json.loads(init)[:5]
+# Abs = <<scheme, pre, ver, FsKey, pc, idx, used, res, seen classes, TmpKey, split>>
+def _case_of(init, path, cid, origin):
+    first = json.loads(init)
+    scheme, pre, ver, _, pcs = first[:5]
     bad = sorted({b for edge in path for b in edge[2]})
+    steps = []
+    for edge in path:
+        after = json.loads(edge[1])
+        steps.append([edge[0], after[3], after[9]])
     return {"id": cid, "scheme": scheme, "pre": pre, "ver": ver,
-            "nruns": sum(1 for p in pcs if p != "off"), "split": graph.split,
+            "nruns": sum(1 for p in pcs if p != "off"), "split": bool(first[10]),
             "sched": [edge[0][0] for edge in path], "origin": origin,
-            "model": [[edge[0], json.loads(edge[1])[3]] for edge in path],
-            "model_end": json.loads(path[-1][1]) if path else json.loads(init),
-            "model_bad": bad}
+            "model": steps, "model_end": json.loads(path[-1][1]), "model_bad": bad}
 
 
-def _schedules(graph, per3, cover_cap, rnd, next_id, quick):
-    '''All schedules of <= 2 runs; for 3 runs `per3` uniformly drawn schedules
-    per configuration plus schedules through edges not yet covered.
-'''
-    cases, info = [], {"all": 0, "sampled": 0, "cover": 0, "paths3": 0,
-                       "configurations": 0}
+def _schedules(graph, all_cap, sample2, sample3, cover3_cap, rnd, next_id):
+    '''Per configuration (= initial state): ALL its schedules if there are at
+    most `all_cap`; otherwise `sample2`/`sample3` uniformly drawn schedules
+    (2/3 runs) plus schedules through transitions not yet covered - without
+    limit for the 2-run graphs, up to `cover3_cap` in total for the 3-run ones.'''
+    cases = []
+    info = {"configurations": 0, "configurations_exhaustive": 0, "all": 0,
+            "sampled": 0, "cover": 0, "schedules_in_model": 0}
     covered = set()
+    edges_of = {}
 
     def add(init, path, origin):
-        cases.append(_case_of(graph, init, path, next_id[0], origin))
+        cases.append(_case_of(init, path, next_id[0], origin))
         next_id[0] += 1
         key = init
         for edge in path:
             covered.add((key, edge[0][0], edge[1]))
             key = edge[1]
 
-    three = []
+    sampled = []
     for init in graph.inits:
-        scheme, pre, ver, _, pcs = json.loads(init)[:5]
-        nruns = sum(1 for p in pcs if p != "off")
+        nruns = sum(1 for p in json.loads(init)[4] if p != "off")
         info["configurations"] += 1
-        if nruns <= 2 or graph.count(init) <= per3:
+        info["schedules_in_model"] += graph.count(init)
+        if graph.count(init) <= all_cap:
+            info["configurations_exhaustive"] += 1
             for path in graph.all_paths(init):
                 add(init, path, "all")
                 info["all"] += 1
-        else:
-            three.append(init)
-            info["paths3"] += graph.count(init)
-            seen = set()
-            for _ in range(per3):
-                path = graph.random_path(init, rnd)
-                sig = tuple(e[0][0] for e in path)
-                if sig in seen:
-                    continue
+            continue
+        sampled.append((nruns, init))
+        seen = set()
+        for _ in range(sample2 if nruns <= 2 else sample3):
+            path = graph.random_path(init, rnd)
+            sig = tuple(e[0][0] for e in path)
+            if sig not in seen:
                 seen.add(sig)
                 add(init, path, "sample")
                 info["sampled"] += 1
-    # edge cover of the 3-run graphs: prefix = BFS tree path, suffix = random
-    for init in three:
+    # transition cover: prefix = BFS tree path, then the edge, then a random suffix
+    cover3 = 0
+    for nruns, init in sorted(sampled):
         parent = {init: None}
         queue = [init]
         for key in queue:
@@ -208,11 +219,12 @@ def _schedules(graph, per3, cover_cap, rnd, next_id, quick):
                 if edge[1] not in parent:
                     parent[edge[1]] = (key, edge)
                     queue.append(edge[1])
+        edges_of[init] = sum(len(graph.succ[k]) for k in queue)
         for key in queue:
             for edge in graph.succ[key]:
-                if info["cover"] >= cover_cap:
-                    break
                 if (key, edge[0][0], edge[1]) in covered:
+                    continue
+                if nruns > 2 and cover3 >= cover3_cap:
                     continue
                 prefix, cur = [], key
                 while parent[cur] is not None:
@@ -221,13 +233,14 @@ def _schedules(graph, per3, cover_cap, rnd, next_id, quick):
                 prefix.reverse()
                 add(init, prefix + [edge] + graph.random_path(edge[1], rnd), "cover")
                 info["cover"] += 1
+                cover3 += nruns > 2
     info["edges"] = graph.nedges
     info["edges_covered"] = len(covered)
     return cases, info
 
 
 def _counterexample(res):
-    '''Schedule of the error trace TLC printed for KernelOutput_single.cfg.'''
+    '''Schedule of the error trace TLC printed for KernelOutput_check.cfg.'''
     blocks = re.split(r"\nState \d+: ", res.out)
     if len(blocks) < 3:
         raise core.MachineryError("no error trace in TLC output")
@@ -245,6 +258,7 @@ def _counterexample(res):
     pcs = _tlc_value(field(first, "pc"))
     return {"scheme": json.loads(field(first, "scheme")), "pre": int(field(first, "pre")),
             "ver": _tlc_value(field(first, "ver")),
+            "split": field(first, "split") == "TRUE",
             "nruns": sum(1 for p in pcs if p != "off"), "sched": sched}
 
 
@@ -330,14 +344,19 @@ def _compare_with_model(case, trace):
         if i >= len(model):
             differ += 1
             continue
-        opr, fskey = model[i]
+        opr, fskey, tmpkey = model[i]
         real_fs = [[] for _ in fskey]
         for item in event["fs"]:
             tag = int(item["name"])
             if tag < len(real_fs):
                 real_fs[tag] = [item["by"], item["w"], item["content"], item["inner"]]
+        real_tmp = [["none", -1] for _ in tmpkey]
+        for item in event["tmps"]:
+            if 1 <= item["by"] <= len(real_tmp):
+                real_tmp[item["by"] - 1] = [item["content"], item["inner"]]
         if ([event["run"], event["call"], event["name"], event["res"], event["cls"]] != opr
-                or real_fs != fskey or event["stray"]):
+                or real_fs != fskey or real_tmp != tmpkey or event["stray"]
+                or len(event["tmps"]) != sum(1 for t in tmpkey if t[0] != "none")):
             differ += 1
     differ += max(0, len(model) - len(trace["events"]))
     end = case["model_end"]
@@ -353,25 +372,28 @@ def _compare_with_model(case, trace):
 
 def _tlc_case(trace):
     return {"id": trace["id"], "scheme": trace["scheme"], "pre": trace["pre"],
-            "ver": trace["ver"], "nruns": trace["nruns"], "fs0": trace["fs0"],
+            "ver": trace["ver"], "split": bool(trace["split"]),
+            "nruns": trace["nruns"], "fs0": trace["fs0"],
             "events": [{k: e[k] for k in ("run", "call", "name", "res", "cls",
-                                          "fs", "stray")} for e in trace["events"]],
+                                          "fs", "tmps", "stray")}
+                       for e in trace["events"]],
             "fin": [{"res": f["res"], "used": f["used"]} for f in trace["fin"]]}
 
 
 def _validate(traces, tmp, workers, cov):
     verdicts, diverged = {}, {}
-    for split, cfg in ((False, "Trace_KernelOutput.cfg"),
-                       (True, "Trace_KernelOutput_split.cfg")):
-        every = [t for t in traces if t["split"] == split]
+    for split, cfg in ((None, "Trace_KernelOutput.cfg"),):
+        every = traces
         # batches of <= 4000 traces (about 20 MB of JSON) per TLC run
         for lo in range(0, len(every), 4000):
             part = every[lo:lo + 4000]
-            path = os.path.join(tmp, f"traces-{int(split)}-{lo}.json")
+            path = os.path.join(tmp, f"traces-{lo}.json")
             with open(path, "w") as fout:
                 json.dump([_tlc_case(t) for t in part], fout, separators=(",", ":"))
             res = core.run_tlc("Trace_KernelOutput.tla", cfg, env={"PV_CASES": path},
                                workers=workers, timeout=3000)
+            if os.environ.get("PV_C29_KEEP"):               # development only
+                shutil.copy(path, os.environ["PV_C29_KEEP"])
             os.unlink(path)
             cov["states"] += res.distinct
             cov["transitions"] += res.generated
@@ -477,58 +499,49 @@ def run(tier):
     cov = {"states": 0, "transitions": 0, "traces_validated_against_impl": 0,
            "samples": [], "exhaustive": False, "divergences": 0, "unsupported": 0}
 
-    # 1. design level: all interleavings of <= 3 runs -------------------------
-    res = _model_tlc("KernelOutput.tla", "KernelOutput_multiple.cfg", check=False,
-                     workers=workers, coverage=not quick)
-    if res.invariant_violated or res.error:
-        raise core.MachineryError("KernelOutput.tla ('multiple', 3 runs, split writes) "
-                                  "violates its invariants: "
-                                  + str(res.invariant_violated or res.error))
-    cov["states"] += res.distinct
-    cov["transitions"] += res.generated
-    cov["model_states_multiple"] = res.distinct
-    if not quick:
-        cov["model_action_coverage"] = {k: v[0] for k, v in res.coverage().items()}
-    res = _model_tlc("KernelOutput.tla", "KernelOutput_single.cfg", check=False,
-                     workers=1)           # one worker: a deterministic counter-example
+    # 1. design level + reachable graph: ONE TLC run checks every invariant over
+    #    all interleavings of 1..3 runs (both schemes, earlier kernel or not,
+    #    atomic and split writes) and prints the transitions of the cases that
+    #    are replayed (quick: DumpQuick; thorough: all) ---------------------------
+    cfg = "KernelOutput_dump.cfg" if quick else "KernelOutput_dump_thorough.cfg"
+    res = _model_tlc("KernelOutput.tla", cfg, check=False, workers=workers)
     if res.error:
-        raise core.MachineryError("KernelOutput_single.cfg: " + res.error)
+        raise core.MachineryError(f"{cfg}: {res.error}")
     cov["states"] += res.distinct
     cov["transitions"] += res.generated
-    cex = None
-    if res.invariant_violated:
-        cex = _counterexample(res)
-        cov["model_counterexample"] = {"invariant": res.invariant_violated, **cex}
-
-    clock = _phase("model checking (multiple: invariants hold; single: counter-example)", clock)
-    # 2. reachable graphs -> schedules ---------------------------------------
+    cov["model_states"] = res.distinct
     rnd = random.Random(1000003 * core.seed() + 29)
     next_id = [1]
-    cases, sched_info = [], {}
-    dumps = [("KernelOutput_dump.cfg", False, 20 if quick else 800,
-              300 if quick else 6000)]
-    dumps.append(("KernelOutput_dump_split.cfg", True, 0, 0) if quick else
-                 ("KernelOutput_dump_split_thorough.cfg", True, 300, 3000))
-    for cfg, split, per3, cap in dumps:
-        res = _model_tlc("KernelOutput.tla", cfg, check=False, workers=workers)
-        if res.error or res.invariant_violated:
-            raise core.MachineryError(f"{cfg}: {res.error or res.invariant_violated}")
-        graph = Graph(res, split)
-        cov["states"] += res.distinct
-        cov["transitions"] += res.generated
-        new, info = _schedules(graph, per3, cap, rnd, next_id, quick)
+    cases, sched_info, cex = [], {}, None
+    if res.invariant_violated:
+        # the model itself violates a clause: replay TLC's counter-example with
+        # the real code, whose recorded trace decides (one worker: deterministic)
+        res = core.run_tlc("KernelOutput.tla", "KernelOutput_check.cfg", check=False,
+                           workers=1)
+        if res.error or not res.invariant_violated:
+            raise core.MachineryError("KernelOutput_check.cfg: " + str(res.error))
+        cex = _counterexample(res)
+        cov["model_counterexample"] = {"invariant": res.invariant_violated, **cex}
+        print(f"[C29] MODEL COUNTER-EXAMPLE {res.invariant_violated}: {cex}")
+        cases.append({"id": 0, "origin": "tlc-counterexample", "model": None,
+                      "model_bad": [res.invariant_violated], **cex})
+    else:
+        graph = Graph(res)
+        if quick:
+            new, info = _schedules(graph, 130, 40, 40, 250, rnd, next_id)
+        else:
+            new, info = _schedules(graph, 13000, 400, 400, 6000, rnd, next_id)
         cases += new
         sched_info[cfg] = info
-    if cex:
-        cases.append({"id": 0, "split": False, "origin": "tlc-counterexample",
-                      "model": None, "model_bad": ["SingleShared"], **cex})
     cov["schedules"] = sched_info
     limit = int(os.environ.get("PV_C29_LIMIT", "0"))        # development only
     if limit and len(cases) > limit:
         cases = cases[::len(cases) // limit] + cases[-1:]
         cov["dev_limit"] = limit
 
-    clock = _phase(f"transition dumps -> {len(cases)} schedules", clock)
+    clock = _phase(f"TLC: {res.distinct} states, all invariants "
+                   f"{'hold' if cex is None else 'DO NOT hold'}; {len(cases)} schedules",
+                   clock)
     # 3. binding A: replay every schedule with real concurrent runs -----------
     _prepare()
     traces = _replay_all(cases, workers)
@@ -615,8 +628,10 @@ def run(tier):
                    ">= 2 runs; every case is replayed with real threads and its "
                    "recorded trace validated by TLC")
     cov["exhaustive"] = False
-    cov["exhaustive_part"] = ("model: all interleavings of 1..3 runs; real replays: "
-                              "all schedules of 1..2 runs, 3 runs sampled")
+    cov["exhaustive_part"] = ("model: all interleavings of 1..3 runs; real replays: all "
+                              "schedules of the configurations counted in "
+                              "schedules.configurations_exhaustive, the others sampled "
+                              "(+ every transition of the 2-run graphs)")
     return out.finish(cov, assumptions=[
         "one transformed kernel per run (LFRic testkern via 1_single_invoke.f90; "
         "version 1 = ACCRoutineTrans, version 2 = Dynamo0p3KernelConstTrans)",
